@@ -10,7 +10,7 @@ from ..algebra import Extractor, Rat, Unsupported
 from ..cfg import CFG
 from ..core import Ctx
 from ..model import body_stmts, dotted, kwarg, norm, walk_no_nested
-from .common import assigned_value, enclosing, expand_locals, pnorm
+from .common import assigned_value, check_unitary_record, enclosing, expand_locals, pnorm
 
 FN = "Alignment.gamma_k_disorder"
 
@@ -117,6 +117,7 @@ def run(ctx: Ctx):
     ctx.not_decided += ["gamma-cat/gamma-k <= 1 and == 1 on perfect categorisation (run-time consequences)", "the experimental unit/empty term is taken as specified by the property"]
     ctx.assumptions += ["dissimilarity.positional_dissim.d / categorical_dissim.d are the functions checked by C04"]
     M = ctx.model
+    check_unitary_record(ctx, "R-C12-1")
     f = ctx.fn(FN, "R-C12-1")
     sn, dp, cp = f.self_name, f.params[1], f.params[2]
     cfg = CFG(f.node)
